@@ -295,9 +295,49 @@ impl TestSide {
     }
 }
 
+struct FileBag {
+    files: Vec<turmoil::fs::shim::std::fs::File>,
+    drop_them: bool,
+}
+
+impl FileBag {
+    fn push(&mut self, f: turmoil::fs::shim::std::fs::File) {
+        self.files.push(f);
+    }
+    fn len(&self) -> usize {
+        self.files.len()
+    }
+}
+
+impl std::ops::Index<usize> for FileBag {
+    type Output = turmoil::fs::shim::std::fs::File;
+    fn index(&self, i: usize) -> &Self::Output {
+        &self.files[i]
+    }
+}
+
+impl Drop for FileBag {
+    fn drop(&mut self) {
+        if !self.drop_them {
+            for f in self.files.drain(..) {
+                std::mem::forget(f);
+            }
+        }
+    }
+}
+
 trait Backend {
     /// Executes one op; returns (result text, resumed tids sorted) or None when the backend is dead.
     fn exec(&mut self, op: &Op) -> Option<(String, Vec<u32>)>;
+    /// Several trigger ops issued before the simulation moves on; returns them in the order they executed.
+    fn exec_batch(&mut self, ops: &[Op]) -> Option<Vec<(Op, String, Vec<u32>)>> {
+        let mut out = vec![];
+        for op in ops {
+            let (r, res) = self.exec(op)?;
+            out.push((op.clone(), r, res));
+        }
+        Some(out)
+    }
     fn finish(self: Box<Self>);
 }
 
@@ -398,7 +438,7 @@ struct SimBackend {
 const NHOSTS: usize = 2;
 
 impl SimBackend {
-    fn new(seed: u64) -> Self {
+    fn new(seed: u64, dropfiles: bool) -> Self {
         let mut builder = turmoil::Builder::new();
         builder
             .simulation_duration(Duration::from_secs(100_000))
@@ -419,7 +459,8 @@ impl SimBackend {
                 create_dir_all("/d")?;
                 // never run `File::drop`: after a panic inside the corruption hook the fs mutex is poisoned and
                 // the shim's `Drop for File` would panic while unwinding (process abort)
-                let mut files = std::mem::ManuallyDrop::new(vec![]);
+                // (`dropfiles` cases want exactly that and run in a child process)
+                let mut files = FileBag { files: vec![], drop_them: dropfiles };
                 for k in 0..4u32 {
                     let f = OpenOptions::new().read(true).write(true).create(true).open(fs_path(k))?;
                     f.write_at(&[0x55u8; 4096], 0)?;
@@ -542,6 +583,52 @@ impl Backend for SimBackend {
         }
         Some((res, resumed))
     }
+    /// All of them run in ONE `sim.step()`: hosts take their turn in registration order; inside a host the script
+    /// task runs its queue (synchronous triggers fire inline, async ones are spawned) and the spawned tasks follow
+    /// in spawn order.
+    fn exec_batch(&mut self, ops: &[Op]) -> Option<Vec<(Op, String, Vec<u32>)>> {
+        self.sim.as_ref()?;
+        let mut order: Vec<(usize, bool, usize)> = vec![]; // (host, async?, position)
+        for (i, op) in ops.iter().enumerate() {
+            match op {
+                Op::Trigger { host, .. } => order.push(((*host as usize) % NHOSTS, true, i)),
+                Op::TriggerNoop { host, .. } => order.push(((*host as usize) % NHOSTS, false, i)),
+                _ => return None,
+            }
+        }
+        order.sort();
+        let mut issued = vec![];
+        for (h, is_async, i) in &order {
+            let tid = self.next_tid;
+            self.next_tid += 1;
+            let (ty, val) = match &ops[*i] {
+                Op::Trigger { ty, val, .. } | Op::TriggerNoop { ty, val, .. } => (*ty, *val),
+                _ => unreachable!(),
+            };
+            issued.push((tid, *i));
+            let hop = if *is_async { HostOp::Trigger { tid, ty, val } } else { HostOp::TriggerNoop { tid, ty, val } };
+            self.hosts[*h].queue.borrow_mut().push_back(hop);
+        }
+        for h in &self.hosts {
+            h.notify.notify_one();
+        }
+        if let Err(class) = self.step() {
+            return Some(vec![(ops[issued[0].1].clone(), format!("panic {class}"), vec![])]);
+        }
+        let mut out = vec![];
+        for (tid, i) in issued {
+            let res = match self.flags.borrow().get(&tid) {
+                Some(2) => "done".to_string(),
+                Some(1) => {
+                    self.suspended.push(tid);
+                    "suspended".to_string()
+                }
+                _ => "notrun".to_string(),
+            };
+            out.push((ops[i].clone(), res, vec![]));
+        }
+        Some(out)
+    }
     fn finish(mut self: Box<Self>) {
         // drop test-side objects first (barriers unregister), then the sim
         self.test = TestSide::default();
@@ -558,21 +645,115 @@ pub struct Case {
     family: &'static str,
     backend: &'static str,
     ops: Vec<Op>,
+    /// sim backend: the hosts keep their shim `File`s in an ordinary `Vec` (dropped when the host's future unwinds).
+    /// Such a case may take the whole process down (finding F-C20-1), so it always runs in a child process.
+    dropfiles: bool,
+    /// sim backend: maximal runs of consecutive trigger ops (up to 4) are issued within one `sim.step()`
+    batch: bool,
 }
 
-fn run_case(case: &Case, seed: u64) -> Vec<String> {
+/// Run a `dropfiles` case in a child process (this binary, `--replay`), streaming its lines to a file, and turn
+/// the death of the child into an observation: `abort` for the operation that was executing.
+fn run_case_in_child(case: &Case, seed: u64, args: &Args, n: usize) -> Vec<String> {
+    let case_path = format!("{}.child-{n}.case", args.out);
+    let out_path = format!("{}.child-{n}.trace", args.out);
+    let mut text = format!("CASE 0 family={} seed={seed}\nCFG backend={} simseed={seed} dropfiles=1\n", case.family, case.backend);
+    for op in &case.ops {
+        text.push_str(&format!("OP {}\n", op.text()));
+    }
+    text.push_str("END\n");
+    std::fs::write(&case_path, text).expect("child case file");
+    let status = std::process::Command::new(std::env::current_exe().expect("current_exe"))
+        .args(["C20", "--tier", &args.tier, "--seed", &seed.to_string(), "--out", &out_path, "--replay", &case_path])
+        .env("TV_URING_CHILD", "1")
+        .stdout(std::process::Stdio::null())
+        .stderr(std::process::Stdio::null())
+        .status();
+    let live_path = format!("{out_path}.live");
+    let body = std::fs::read_to_string(&live_path).unwrap_or_default();
+    let _ = std::fs::remove_file(&case_path);
+    let _ = std::fs::remove_file(&out_path);
+    let _ = std::fs::remove_file(&live_path);
+    let mut lines: Vec<String> = body.lines().filter(|l| l.starts_with("OP ") || l.starts_with("OBS ")).map(|l| l.to_string()).collect();
+    let died = match &status {
+        Ok(st) => !st.success(),
+        Err(_) => true,
+    };
+    if died {
+        use std::os::unix::process::ExitStatusExt;
+        let how = match status.ok().and_then(|st| st.signal()) {
+            Some(6) => "abort".to_string(),
+            Some(sig) => format!("killed {sig}"),
+            None => "childfail".to_string(),
+        };
+        // the OP line is streamed before the call: an OP without OBS is where the process died
+        if lines.last().map(|l| l.starts_with("OP ")).unwrap_or(false) {
+            lines.push(format!("OBS {how} resumed=-"));
+        } else {
+            lines.push(format!("OBS {how}-between-ops resumed=-"));
+        }
+    }
+    lines
+}
+
+fn run_case(case: &Case, seed: u64, live: Option<String>) -> Vec<String> {
     let case = case.clone();
     let handle = std::thread::Builder::new()
         .name("case".into())
         .spawn(move || {
             util::install_quiet_panic_hook();
             let mut lines = vec![];
+            let emit = |l: &str| {
+                if let Some(p) = &live {
+                    use std::io::Write as _;
+                    if let Ok(mut f) = std::fs::OpenOptions::new().append(true).create(true).open(p) {
+                        let _ = writeln!(f, "{l}");
+                        let _ = f.flush();
+                    }
+                }
+            };
             let mut be: Box<dyn Backend> = if case.backend == "sim" {
-                Box::new(SimBackend::new(seed))
+                Box::new(SimBackend::new(seed, case.dropfiles))
             } else {
                 Box::new(Direct::default())
             };
-            for op in &case.ops {
+            let mut i = 0usize;
+            while case.batch && i < case.ops.len() {
+                // batch mode: group consecutive triggers
+                let is_trig = |o: &Op| matches!(o, Op::Trigger { .. } | Op::TriggerNoop { .. });
+                let mut j = i;
+                while j < case.ops.len() && is_trig(&case.ops[j]) && j - i < 4 {
+                    j += 1;
+                }
+                let fmt = |resumed: &Vec<u32>| {
+                    if resumed.is_empty() { "-".to_string() } else { resumed.iter().map(|t| t.to_string()).collect::<Vec<_>>().join(",") }
+                };
+                if j - i >= 2 {
+                    match be.exec_batch(&case.ops[i..j]) {
+                        None => break,
+                        Some(rs) => {
+                            for (op, res, resumed) in rs {
+                                lines.push(format!("OP {}", op.text()));
+                                lines.push(format!("OBS {res} resumed={}", fmt(&resumed)));
+                            }
+                        }
+                    }
+                    i = j;
+                } else {
+                    match be.exec(&case.ops[i]) {
+                        None => break,
+                        Some((res, resumed)) => {
+                            lines.push(format!("OP {}", case.ops[i].text()));
+                            lines.push(format!("OBS {res} resumed={}", fmt(&resumed)));
+                        }
+                    }
+                    i += 1;
+                }
+            }
+            for op in case.ops.iter().filter(|_| !case.batch) {
+                if live.is_some() {
+                    emit(&format!("OP {}", op.text()));
+                }
                 match be.exec(op) {
                     None => break,
                     Some((res, resumed)) => {
@@ -583,6 +764,7 @@ fn run_case(case: &Case, seed: u64) -> Vec<String> {
                             resumed.iter().map(|t| t.to_string()).collect::<Vec<_>>().join(",")
                         };
                         lines.push(format!("OBS {res} resumed={r}"));
+                        emit(&format!("OBS {res} resumed={r}"));
                     }
                 }
             }
@@ -855,6 +1037,59 @@ fn backlog_case(rng: &mut Rng, sim: bool, fshook: bool) -> Vec<Op> {
     ops
 }
 
+/// Triggers from both hosts (async and sync) issued within ONE simulation step, several rounds, with waits and
+/// handle drops between the rounds. Reactions that cannot panic with the trigger kinds used.
+fn samestep_case(rng: &mut Rng) -> Vec<Op> {
+    let mut ops = vec![];
+    let nb = rng.range(1, 3) as u32;
+    for _ in 0..nb {
+        let n = rng.below(3) as u32;
+        let c = match rng.below(5) {
+            0 | 1 => Cond::Any,
+            2 => Cond::Eq(n),
+            3 => Cond::Ge(n),
+            _ => Cond::Lt(n),
+        };
+        if rng.chance(1, 2) {
+            ops.push(Op::Build { r: React::Suspend, ty: 0, c });
+        } else {
+            ops.push(Op::Build { r: React::Noop, ty: rng.below(2) as u8, c });
+        }
+    }
+    let mut tid = 0u32;
+    for _round in 0..rng.range(2, 5) {
+        for _ in 0..rng.range(2, 4) {
+            let host = rng.below(2) as u8;
+            let val = rng.below(3) as u32;
+            // synchronous triggers only of type 1 (no Suspend barrier listens there)
+            if rng.chance(1, 3) {
+                ops.push(Op::TriggerNoop { host, ty: 1, val });
+            } else {
+                ops.push(Op::Trigger { host, ty: rng.below(2) as u8, val });
+            }
+            tid += 1;
+        }
+        for _ in 0..rng.range(1, 4) {
+            match rng.below(3) {
+                0 | 1 => ops.push(Op::Wait(rng.below(nb as u64) as u32)),
+                _ => ops.push(Op::DropHandle(rng.below(tid as u64) as u32)),
+            }
+        }
+    }
+    for b in 0..nb {
+        for _ in 0..tid + 1 {
+            ops.push(Op::Wait(b));
+        }
+    }
+    for b in 0..nb {
+        ops.push(Op::DropBarrier(b));
+    }
+    for t in 0..tid {
+        ops.push(Op::DropHandle(t));
+    }
+    ops
+}
+
 pub fn main(args: &Args, out: &mut dyn Write) {
     let mut rng = Rng::new(args.seed);
     let mut cases: Vec<Case> = vec![];
@@ -872,7 +1107,8 @@ pub fn main(args: &Args, out: &mut dyn Write) {
         let sc = util::read_case_file(path);
         let backend = sc.cfg.iter().find(|(k, _)| k == "backend").map(|(_, v)| v.clone()).unwrap_or("direct".into());
         let ops: Vec<Op> = sc.ops.iter().filter_map(|t| Op::parse(t)).collect();
-        cases.push(Case { family: "replay", backend: if backend == "sim" { "sim" } else { "direct" }, ops });
+        let dropfiles = sc.cfg.iter().any(|(k, v)| k == "dropfiles" && v == "1");
+        cases.push(Case { family: "replay", backend: if backend == "sim" { "sim" } else { "direct" }, ops, dropfiles, batch: false });
     } else {
         // (small bounds: enumerated completely) (large bounds: every `stride`-th sequence, offset from the seed)
         let (small, large, stride, n_rand, n_sim_exh, n_sim_rand, n_fs) = match args.tier.as_str() {
@@ -898,7 +1134,7 @@ pub fn main(args: &Args, out: &mut dyn Write) {
         let seqs = maximal_only(seqs);
         eprintln!("C20 exhaustive (complete): {} sequences, {} maximal (bounds nb={} nt={} nc={} len={})", total_enum, seqs.len(), small.nb, small.nt, small.nc, small.len);
         for s in seqs.iter() {
-            cases.push(Case { family: "exh", backend: "direct", ops: s.clone() });
+            cases.push(Case { family: "exh", backend: "direct", ops: s.clone(), dropfiles: false, batch: false });
         }
         let mut big = vec![];
         enumerate(&large, &mut big);
@@ -907,7 +1143,7 @@ pub fn main(args: &Args, out: &mut dyn Write) {
         let mut taken = 0usize;
         for (i, s) in big.iter().enumerate() {
             if i % stride == offset && s.len() > small.len {
-                cases.push(Case { family: "exhbig", backend: "direct", ops: s.clone() });
+                cases.push(Case { family: "exhbig", backend: "direct", ops: s.clone(), dropfiles: false, batch: false });
                 taken += 1;
             }
         }
@@ -918,7 +1154,7 @@ pub fn main(args: &Args, out: &mut dyn Write) {
         let off = (rng.next() as usize) % step;
         for (i, s) in seqs.iter().enumerate() {
             if i % step == off {
-                cases.push(Case { family: "exhsim", backend: "sim", ops: s.clone() });
+                cases.push(Case { family: "exhsim", backend: "sim", ops: s.clone(), dropfiles: false, batch: false });
             }
         }
         let (n_bl, n_bl_sim, n_bl_fs) = match args.tier.as_str() {
@@ -927,22 +1163,43 @@ pub fn main(args: &Args, out: &mut dyn Write) {
             _ => (40, 6, 4),
         };
         for _ in 0..n_bl {
-            cases.push(Case { family: "backlog", backend: "direct", ops: backlog_case(&mut rng, false, false) });
+            cases.push(Case { family: "backlog", backend: "direct", ops: backlog_case(&mut rng, false, false), dropfiles: false, batch: false });
         }
         for _ in 0..n_bl_sim {
-            cases.push(Case { family: "backlogsim", backend: "sim", ops: backlog_case(&mut rng, true, false) });
+            cases.push(Case { family: "backlogsim", backend: "sim", ops: backlog_case(&mut rng, true, false), dropfiles: false, batch: false });
         }
         for _ in 0..n_bl_fs {
-            cases.push(Case { family: "backlogfs", backend: "sim", ops: backlog_case(&mut rng, true, true) });
+            cases.push(Case { family: "backlogfs", backend: "sim", ops: backlog_case(&mut rng, true, true), dropfiles: false, batch: false });
         }
         for _ in 0..n_rand {
-            cases.push(Case { family: "rand", backend: "direct", ops: random_case(&mut rng, false, false) });
+            cases.push(Case { family: "rand", backend: "direct", ops: random_case(&mut rng, false, false), dropfiles: false, batch: false });
         }
         for _ in 0..n_sim_rand {
-            cases.push(Case { family: "randsim", backend: "sim", ops: random_case(&mut rng, true, false) });
+            cases.push(Case { family: "randsim", backend: "sim", ops: random_case(&mut rng, true, false), dropfiles: false, batch: false });
+        }
+        for _ in 0..(n_sim_rand / 2).max(40) {
+            cases.push(Case { family: "samestep", backend: "sim", ops: samestep_case(&mut rng), dropfiles: false, batch: true });
+        }
+        // F-C20-1 territory: a panicking reaction reached through the fs corruption hook while the host holds open files.
+        let t2 = |host: u8, val: u32| Op::TriggerNoop { host, ty: 2, val };
+        let fsabort: Vec<Vec<Op>> = vec![
+            vec![Op::Build { r: React::Panic, ty: 2, c: Cond::Any }, t2(0, 0)],
+            vec![Op::Build { r: React::Suspend, ty: 2, c: Cond::Any }, t2(1, 1)],
+            vec![Op::Build { r: React::Noop, ty: 2, c: Cond::Any }, t2(0, 0), Op::Wait(0), Op::DropHandle(0), Op::DropBarrier(0)],
+            vec![Op::Build { r: React::Panic, ty: 0, c: Cond::Any }, Op::TriggerNoop { host: 0, ty: 0, val: 1 }],
+            vec![
+                Op::Build { r: React::Noop, ty: 2, c: Cond::Eq(0) },
+                Op::Build { r: React::Panic, ty: 2, c: Cond::Any },
+                t2(1, 0),
+                Op::Wait(0),
+                t2(1, 1),
+            ],
+        ];
+        for ops in fsabort {
+            cases.push(Case { family: "fsabort", backend: "sim", ops, dropfiles: true, batch: false });
         }
         for _ in 0..n_fs {
-            cases.push(Case { family: "fshook", backend: "sim", ops: random_case(&mut rng, true, true) });
+            cases.push(Case { family: "fshook", backend: "sim", ops: random_case(&mut rng, true, true), dropfiles: false, batch: false });
         }
         if cases.len() > budget {
             cases.truncate(budget);
@@ -958,8 +1215,15 @@ pub fn main(args: &Args, out: &mut dyn Write) {
     for (n, case) in cases.iter().enumerate() {
         let seed = replay_simseed.unwrap_or_else(|| rng.next());
         writeln!(out, "CASE {n} family={} seed={seed}", case.family).unwrap();
-        writeln!(out, "CFG backend={} simseed={seed}", case.backend).unwrap();
-        let lines = run_case(case, seed);
+        writeln!(out, "CFG backend={} simseed={seed} dropfiles={}", case.backend, case.dropfiles as u8).unwrap();
+        let child = std::env::var("TV_URING_CHILD").is_ok();
+        let lines = if case.dropfiles && !child {
+            run_case_in_child(case, seed, args, n)
+        } else if child {
+            run_case(case, seed, Some(format!("{}.live", args.out)))
+        } else {
+            run_case(case, seed, None)
+        };
         for l in &lines {
             writeln!(out, "{l}").unwrap();
             let toks: Vec<&str> = l.split_whitespace().collect();
